@@ -316,17 +316,97 @@ func runHeap(c *Ctx) {
 		c.Emit("%s", line)
 		c.Count("heap")
 	}
+	c.Stats["grow_cases"] = g.grow
+	c.Stats["grow_cases_exposing"] = g.growExposing
+}
+
+// growObjs: the initial heap of a GROWTH scenario (fix 73ac0b6): one array of n cells, mostly non-nil, seen
+// through a full header, at the root or under key "a" of a map
+func (g *gen) growObjs() ([]*hobj, hcell, gpath, int) {
+	r := g.r
+	n := 1 + r.Intn(5)
+	arr := &hobj{back: make([]any, n)}
+	for j := 0; j < n; j++ {
+		c := g.scalarCell()
+		if c.v == nil && r.Chance(3, 4) {
+			c = hcell{j + 20, fmt.Sprintf("(i %d)", j+20)}
+		}
+		arr.back[j] = c.v
+		arr.cells = append(arr.cells, c.s)
+	}
+	if r.Chance(1, 2) {
+		return []*hobj{arr}, hcell{arr.back, fmt.Sprintf("(sl 0 0 %d %d)", n, n)}, gpath{}, n
+	}
+	m := &hobj{isMap: true, m: map[string]any{"a": arr.back}, mkeys: []string{"a"}, mvals: []string{fmt.Sprintf("(sl 1 0 %d %d)", n, n)}}
+	return []*hobj{m, arr}, hcell{m.m, "(mp 0)"}, gpath{comp{kind: 'k', key: "a"}}, n
+}
+
+type scriptOp struct {
+	p gpath
+	e *nexpr
+}
+
+// growScript: (1) a write below q makes the reduction own a copy of the array (len l1 = cap c1, or more cells
+// than the original when the index lies beyond it); (2) the array at q is replaced by a PREFIX SLICE of itself
+// (what an update body like .[:k] returns): same pointer, len k, the cells k..c1-1 keep their stale content;
+// (3) writes at indices k .. c1-1 (in-place growth over stale cells) and beyond (reallocation)
+func (g *gen) growScript(q gpath, n int) ([]scriptOp, int, int) {
+	r := g.r
+	at := func(i int) gpath { return append(append(gpath{}, q...), comp{kind: 'i', idx: i}) }
+	i0 := r.Intn(n + 2)
+	l1 := n
+	if i0 >= n {
+		l1 = i0 + 1
+	}
+	k := r.Intn(l1 + 1)
+	sl := comp{kind: 's', hasS: r.Chance(1, 2), s: 0, hasE: true, e: k}
+	if r.Chance(1, 8) && k > 0 {
+		sl = comp{kind: 's', hasS: true, s: 1, hasE: true, e: k} // an inner slice: not the allocator's pointer
+	}
+	ops := []scriptOp{
+		{at(i0), &nexpr{kind: "lit", lit: g.scalarCell()}},
+		{q, &nexpr{kind: "cur", p: append(append(gpath{}, q...), sl)}},
+	}
+	m := 1 + r.Intn(3)
+	first := -1
+	for x := 0; x < m; x++ {
+		j := k + r.Intn(l1-k+3)
+		if first < 0 {
+			first = j
+		}
+		e := &nexpr{kind: "lit", lit: g.scalarCell()}
+		if r.Chance(1, 5) {
+			e = &nexpr{kind: "cur", p: q}
+		}
+		ops = append(ops, scriptOp{at(j), e})
+	}
+	return ops, k, first
 }
 
 func (g *gen) heapCase() (line string, viol string) {
 	r := g.r
-	objs, root := g.heapObjs()
+	var script []scriptOp
+	var objs []*hobj
+	var root hcell
+	if !g.safeNew && r.Chance(1, 5) {
+		var q gpath
+		var n int
+		objs, root, q, n = g.growObjs()
+		var k, first int
+		script, k, first = g.growScript(q, n)
+		g.grow++
+		if first > k {
+			g.growExposing++ // the first scripted write grows over at least one cell behind the prefix
+		}
+	} else {
+		objs, root = g.heapObjs()
+	}
 	g.objs = objs
 	var osx []string
 	for _, o := range objs {
 		osx = append(osx, o.sexp())
 	}
-	shared := r.Chance(5, 6) || g.safeNew
+	shared := r.Chance(5, 6) || g.safeNew || script != nil
 	var a *gojq.VerifAlloc
 	if shared {
 		a = gojq.VerifNewAlloc()
@@ -336,6 +416,9 @@ func (g *gen) heapCase() (line string, viol string) {
 	var prev []gpath
 	failed := false
 	nops := 1 + r.Intn(4)
+	if script != nil {
+		nops = len(script) + r.Intn(2)
+	}
 	defer func() {
 		if p := recover(); p != nil {
 			viol = fmt.Sprintf("panic in a path native: %v (heap case %s)", p, strings.Join(ops, " "))
@@ -346,11 +429,20 @@ func (g *gen) heapCase() (line string, viol string) {
 		if !within(state, 0, dumpDepth) {
 			break // cyclic already: the natives may not terminate on it
 		}
-		p := g.heapPath(state, prev)
+		var p gpath
+		var e *nexpr
+		x := r.Intn(12)
+		if k < len(script) {
+			p, e, x = script[k].p, script[k].e, 0
+		} else {
+			p = g.heapPath(state, prev)
+		}
 		prev = append(prev, p)
-		switch x := r.Intn(12); {
+		switch {
 		case x < 7:
-			e := g.nexprFor(state, p)
+			if e == nil {
+				e = g.nexprFor(state, p)
+			}
 			ops = append(ops, "(set "+p.sexp()+" "+e.sexp()+")")
 			n, ok := e.eval(state)
 			if !ok {
@@ -409,6 +501,11 @@ func (g *gen) heapCase() (line string, viol string) {
 	if shared {
 		al = "on"
 	}
-	return fmt.Sprintf("(heap (objs %s) (root %s) (alloc %s) (ops %s) (res %s (pre %s)))",
-		strings.Join(osx, " "), root.s, al, strings.Join(ops, " "), fin, strings.Join(pre, " ")), ""
+	// the result once more with every slice extended to its capacity: the hidden cells of the backing arrays
+	full := "err"
+	if !failed {
+		full = dumpFull(state)
+	}
+	return fmt.Sprintf("(heap (objs %s) (root %s) (alloc %s) (ops %s) (res %s (pre %s) (full %s)))",
+		strings.Join(osx, " "), root.s, al, strings.Join(ops, " "), fin, strings.Join(pre, " "), full), ""
 }
